@@ -44,6 +44,16 @@ CLAIMED = {
             "The complete (offset,width) grid [0,33]x[0,33] plus boundary values up to 2^256-1 over 6 storage words, strings of every length 0..100 and 127/128/255/256/1000/4096 in 5 content classes at 9 slot positions, all invalid length encodings, and random SSTORE/journal sequences are executed on the real VM; recorded bytes (by name and by slot) must equal the decoder's; operands outside the decoder's domain must fail the frame and record nothing.",
             "models/sollayout is the trusted decoder; width 0 only asserted not to crash; string lengths above 4096 left to C20.",
             "DESIGN.md §3 C09"),
+    "C07": ("exploration",
+            "invariant monitor at quiescent points: structural walk of the public CallTree API + complete hook dump after every top-level return, cross-checked with a shadow attempt log built from the debug-tracer stream",
+            "After every top-level return (including follow-up invocations on one EVM and runs with a failure injected at every join-point firing, self-recursion to the depth limit, refused calls/creates) indices must be dense 0..n-1 in order of entry, every non-top node has exactly one smaller-index parent listing it once in increasing order, lookups return the node carrying the index, the four accessor pairs agree with the links, nothing is left open, and n and every parent equal the shadow log's.",
+            "Shadow log derived from Step/Enter/Exit events only; the hook dump (build tag verif) enumerates the lookup table.",
+            "DESIGN.md §3 C07"),
+    "C08": ("exploration",
+            "offline log checker: VM call tree vs an independent attempt log (operands and memory copied at each CALL/CREATE/CREATE2 step, outcome from Exit events, gas handed back derived from the caller's next step), compared at the end of the transaction",
+            "Every node's From/To/Value/supplied gas/calldata or init code/parent and Ret/Err class/RemainingGas are compared with the shadow attempt log after the program has had every chance to overwrite its memory; refused attempts must have a node carrying a refusal error; workloads overlap argument and return areas, overwrite arguments after the call and grow memory.",
+            "Shadow log from the debug-tracer stream; calldata compared when the step's memory (<= 64 KiB) was copied; refused CALLs: supplied gas := gas handed back.",
+            "DESIGN.md §3 C08"),
 }
 
 # Properties not (yet) claimed. Reason must be current.
